@@ -13,8 +13,14 @@ from vlib.core import Infra, ndjson_text, REPO
 from checks import _c17_util as U
 
 SIG_F14 = 'C17:generate:toolchain-program:minimum-version-of-first-record-wins'
-P_TOOL, P_MOD = 'cmd/go', 'golang.org/x/tools/gopls'
-M_MOD = 'golang.org/x/tools/gopls'
+# programs of the generation vectors: (name, module path, toolchain?)   -- odd numbers are toolchain programs
+PROGS = [('cmd/go', 'cmd', True), ('golang.org/x/tools/gopls', 'golang.org/x/tools/gopls', False),
+         ('cmd/compile', 'cmd', True), ('golang.org/x/vuln/cmd/govulncheck', 'golang.org/x/vuln', False)]
+NP = len(PROGS)
+P_TOOL, P_MOD = PROGS[0][0], PROGS[1][0]
+M_MOD = PROGS[1][1]
+# other spellings of a minimum version with the same precedence (shorthand, build metadata)
+SEM_ALIASES = {'v0.14.0': ['v0.14', 'v0.14.0+incompatible'], 'v0.15.0': ['v0.15', 'v0.15.0+build.7'], 'v1.0.0': ['v1', 'v1.0'], 'v2.0.0': ['v2']}
 
 
 # ------------------------------------------------------------------ dumps
@@ -144,33 +150,44 @@ def judge_crash(ctx, meta, x):
 # ------------------------------------------------------------ generation
 def gen_case(cid, recs, rng, go_known, mod_known, ctr_names):
     """abstract records [(prog, ctr, depth, min)] -> a case of the generate harness.
-    go_known / mod_known: rank -> version string of the known versions;
-    minimum versions are taken from the full pools (rank -> string)."""
+    go_known: rank -> Go version known to the proxy; mod_known: {prog number: {rank -> version}}
+    for the module programs (or one dict for all); minimum versions are taken
+    from the full pools (rank -> string)."""
     records = []
     for i, (p, c, d, m) in enumerate(recs):
-        tool = p == 1
+        name, module, tool = PROGS[p - 1]
         pool = U.GO_POOL if tool else U.SEMVER_POOL
+        ver = '' if m == 0 else pool[m - 1]
+        if ver in SEM_ALIASES and rng.random() < 0.4:
+            ver = rng.choice(SEM_ALIASES[ver])
         records.append({
             'Title': 'chart %d' % i, 'Description': rng.choice(['', 'some text']), 'Issue': ['https://go.dev/issue/%d' % (60000 + i)],
             'Type': 'stack' if d > 0 else rng.choice(['partition', 'partition', 'stack']),
-            'Program': P_TOOL if tool else P_MOD, 'Module': 'cmd' if tool else M_MOD,
+            'Program': name, 'Module': module,
             'Counter': ctr_names[c], 'Depth': d, 'Error': rng.choice([0, 0.01]),
-            'Version': '' if m == 0 else pool[m - 1]})
+            'Version': ver})
     tv = ['v0.0.1-%s.%s' % (v, rng.choice(['linux-amd64', 'darwin-arm64', 'windows-386'])) for v in go_known.values()]
     if rng.random() < 0.3:
         tv.append('v0.0.1-go1.9.2rc2.linux-amd64')       # the invalid version the real proxy lists
     rng.shuffle(tv)
-    mv = list(mod_known.values())
-    rng.shuffle(mv)
-    return {'id': cid, 'records': records, 'versions': {'golang.org/toolchain': tv, M_MOD: mv},
-            'paddings': {P_MOD: [rng.randint(0, 3), rng.randint(0, 1), rng.randint(0, 2), rng.randint(0, 2), rng.randint(0, 2)]}}
+    versions = {'golang.org/toolchain': tv}
+    paddings = {}
+    for pi, (name, module, tool) in enumerate(PROGS):
+        if tool:
+            continue
+        mk = mod_known.get(pi + 1, mod_known) if any(isinstance(v, dict) for v in mod_known.values()) else mod_known
+        mv = list(mk.values())
+        rng.shuffle(mv)
+        versions[module] = mv
+        paddings[name] = [rng.randint(0, 3), rng.randint(0, 1), rng.randint(0, 2), rng.randint(0, 2), rng.randint(0, 2)]
+    return {'id': cid, 'records': records, 'versions': versions, 'paddings': paddings}
 
 
 def abstract_gen(case, obs, recs, known_ranks, ctr_names):
     """the observed upload configuration in the vocabulary of ChartConfig.tla"""
     names = {v: k for k, v in ctr_names.items()}
-    progs = {P_TOOL: 1, P_MOD: 2}
-    out = [{'present': False, 'versions': [], 'counters': [], 'stacks': []} for _ in range(2)]
+    progs = {pr[0]: i + 1 for i, pr in enumerate(PROGS)}
+    out = [{'present': False, 'versions': [], 'counters': [], 'stacks': []} for _ in range(NP)]
     extra = []
     depths = set(r[2] for r in recs)
     for p in obs.get('programs') or []:
@@ -179,7 +196,7 @@ def abstract_gen(case, obs, recs, known_ranks, ctr_names):
             continue
         o = out[progs[p['name']] - 1]
         o['present'] = True
-        pool = U.GO_POOL if progs[p['name']] == 1 else U.SEMVER_POOL
+        pool = U.GO_POOL if PROGS[progs[p['name']] - 1][2] else U.SEMVER_POOL
         o['versions'] = [pool.index(v) + 1 for v in p['versions'] if v in pool]
         for kind in ('counters', 'stacks'):
             for c in p[kind]:
@@ -188,14 +205,15 @@ def abstract_gen(case, obs, recs, known_ranks, ctr_names):
                 depths.add(c['depth'])
                 o[kind].append(names[c['name']] if kind == 'counters' else [names[c['name']], c['depth']])
     return {'kind': 'gen', 'recs': [{'prog': p, 'ctr': c, 'depth': d, 'min': m} for (p, c, d, m) in recs],
-            'known': [sorted(known_ranks[0]), sorted(known_ranks[1])], 'nctr': len(names), 'depths': sorted(depths),
+            'known': [sorted(k) for k in known_ranks], 'nctr': len(names), 'depths': sorted(depths),
             'out': out}, extra
 
 
 def classify_gen(o):
     """signature of an unexplained generation (established by the model / TLC)"""
     recs = o['recs']
-    for p in (1, 2):
+    for p in range(1, NP + 1):
+        tool = PROGS[p - 1][2]
         mine = [r for r in recs if r['prog'] == p]
         if not mine:
             if o['out'][p - 1]['present']:
@@ -209,9 +227,9 @@ def classify_gen(o):
         req = set(v for v in known if mm == 0 or v >= mm)
         got = set(o['out'][p - 1]['versions'])
         if not req <= got:
-            if p == 1 and 0 not in mins and mins[0] > mm and got == set(v for v in known if v >= mins[0]):
+            if tool and 0 not in mins and mins[0] > mm and got == set(v for v in known if v >= mins[0]):
                 return SIG_F14
-            return 'C17:generate:versions-missing:%s' % ('toolchain' if p == 1 else 'module')
+            return 'C17:generate:versions-missing:%s' % ('toolchain' if tool else 'module')
     return 'C17:generate:counter-or-stack-lists'
 
 
@@ -262,15 +280,15 @@ def run(ctx):
             lr = random.Random(ctx.seed * 1000003 + bi * 2 + rep)
             sk = lr.sample(U.STR_KEYS, 2)
             conc = U.Concretizer(lr, {'title': sk[0], 'program': sk[1], 'depth': lr.choice(['depth', 'error']) if 'error' not in wkeys else 'depth'})
-            text = conc.text(lines)
+            text = conc.text(lines) + '\n' * lr.choice([0, 0, 1, 2])
             exp = expected_records(conc, res['recs']) if res['ok'] else None
             batch.add(text, src='walk', lines=lines, exp=exp, id=bi)
     ctx.log('walk vectors:', nwalk)
     # A2. records x rendering choices (round trip)
     if ctx.thorough():
-        consts = ' MaxRecs = 2\n SKeySets = {{}, {"title"}, {"title", "program"}}\n IssueCounts = {0, 2}\n CounterKinds = {"none", "braced3"}\n NumKinds = {"none", "zero", "val"}\n'
+        consts = ' MaxRecs = 2\n SKeySets = {{}, {"title"}, {"title", "program"}}\n IssueCounts = {0, 2}\n CounterKinds = {"none", "braced3"}\n NumKinds = {"none", "zero", "val"}\n ErrKinds = {"none"}\n SepStyles = {"plain", "blanks", "extra"}\n MultiStyles = {"one", "split0", "split1", "lead"}\n'
     else:
-        consts = ' MaxRecs = 2\n SKeySets = {{}, {"title", "version"}}\n IssueCounts = {0, 2}\n CounterKinds = {"none", "braced3"}\n NumKinds = {"none"}\n'
+        consts = ' MaxRecs = 2\n SKeySets = {{}, {"title", "version"}}\n IssueCounts = {0, 2}\n CounterKinds = {"none", "braced3"}\n NumKinds = {"none"}\n ErrKinds = {"none"}\n SepStyles = {"plain", "blanks", "extra"}\n MultiStyles = {"one", "split0", "split1", "lead"}\n'
     r = ctx.tlc('ChartConfigRender', cfg_text='SPECIFICATION Spec\nINVARIANT RoundTrip\nCHECK_DEADLOCK FALSE\nCONSTANTS\n' + consts, dump=True,
                 label='ChartConfigRender-2', timeout=1500)
     if not r.ok:
@@ -278,20 +296,38 @@ def run(ctx):
     dumps = [r.dump]
     # one record, every field combination of a richer space
     consts1 = (' MaxRecs = 1\n SKeySets = {{}, {"title"}, {"description", "type"}, {"title", "description", "type", "program", "module", "version"}}\n'
-               ' IssueCounts = {0, 1, 2}\n CounterKinds = {"none", "plain", "braced1", "braced3"}\n NumKinds = {"none", "zero", "val"}\n')
+               ' IssueCounts = {0, 1, 2}\n CounterKinds = {"none", "plain", "braced1", "braced3"}\n NumKinds = {"none", "zero", "val"}\n ErrKinds = {"none"}\n SepStyles = {%s}\n MultiStyles = {"one", "split0", "split1", "lead"}\n' % (
+                   '"plain", "blanks", "extra"' if ctx.thorough() else '"blanks"'))
     r = ctx.tlc('ChartConfigRender', cfg_text='SPECIFICATION Spec\nINVARIANT RoundTrip\nCHECK_DEADLOCK FALSE\nCONSTANTS\n' + consts1, dump=True,
                 label='ChartConfigRender-1', timeout=1500)
     if not r.ok:
         raise Infra('ChartConfigRender: the round trip fails in the specification: %s\n%s' % (r.error, r.out[-3000:]))
     dumps.append(r.dump)
+    # every field optional or present: all 64 subsets of the string fields x both numeric fields x issue x counter
+    extra_families = [
+        ('ChartConfigRender-fields',
+         ' MaxRecs = 1\n SKeySets = {%s}\n IssueCounts = {0, 3}\n' % ', '.join(
+             '{' + ', '.join('"%s"' % k for k in sub) + '}' for n in range(7) for sub in itertools.combinations(U.STR_KEYS, n)) +
+         ' CounterKinds = {"none", "plain"}\n NumKinds = {"none", "val"}\n ErrKinds = {%s}\n SepStyles = {"plain"}\n MultiStyles = {"one"}\n' % ('"none", "zero", "val"' if ctx.thorough() else '"none", "val"')),
+        # three records (a separator before AND after the middle record)
+        ('ChartConfigRender-3',
+         ' MaxRecs = 3\n SKeySets = {{}, {"title"}}\n IssueCounts = {0}\n CounterKinds = {"none"}\n NumKinds = {"none"}\n ErrKinds = {"none", "val"}\n'
+         ' SepStyles = {"plain", "extra"}\n MultiStyles = {"one"}\n'),
+    ]
+    for (lab, cst) in extra_families:
+        r = ctx.tlc('ChartConfigRender', cfg_text='SPECIFICATION Spec\nINVARIANT RoundTrip\nCHECK_DEADLOCK FALSE\nCONSTANTS\n' + cst, dump=True, label=lab, timeout=1500)
+        if not r.ok:
+            raise Infra('ChartConfigRender: the round trip fails in the specification: %s\n%s' % (r.error, r.out[-3000:]))
+        dumps.append(r.dump)
     nrender = 0
     for dp in dumps:
         for bi, block in enumerate(dump_blocks(dp)):
             v = dump_vars(block, ('lines', 'want'))
             nrender += 1
             lr = random.Random(ctx.seed * 999983 + nrender)
-            conc = U.Concretizer(lr, {'depth': lr.choice(['depth', 'depth', 'error'])})
-            text = conc.text(v['lines'])
+            uses_error = any(ln['k'] == 'field' and ln['key'] == 'error' for ln in v['lines'])
+            conc = U.Concretizer(lr, {'depth': 'depth' if uses_error else lr.choice(['depth', 'depth', 'error'])})
+            text = conc.text(v['lines']) + '\n' * lr.choice([0, 0, 1, 1, 2])      # final newline absent / present / blank last line
             batch.add(text, src='render', lines=v['lines'], exp=expected_records(conc, v['want']), id=nrender)
     ctx.log('render vectors:', nrender)
     # A3. line-length classes: one line of each kind, in the first / middle / last record,
@@ -458,18 +494,20 @@ def run(ctx):
     mins = sorted(rng.sample(range(1, top + 1), ctx.pick(3, 4)))
     ctr_names = {1: 'gopls/editor:{emacs,vim,vscode,other}', 2: 'gopls/bug'}
     depth = rng.choice([1, 5, 16])
-    gen_cfgs = []
+    gen_cfgs = []      # (MaxRecs, Ctrs, Mins, NProgs)
     if ctx.thorough():
-        gen_cfgs.append((3, '{1, 2}', mins))
+        gen_cfgs.append((3, '{1, 2}', mins, 2))
+        gen_cfgs.append((2, '{1, 2}', mins, 4))
     else:
-        gen_cfgs.append((2, '{1, 2}', mins))
-        gen_cfgs.append((3, '{1}', mins[:1] + mins[-1:]))
+        gen_cfgs.append((2, '{1, 2}', mins[:1] + mins[-1:], 4))      # two toolchain and two module programs
+        gen_cfgs.append((3, '{1}', mins[:1] + mins[-1:], 2))
     cases, exps = [], []
-    for (mr, ctrs, ms) in gen_cfgs:
-        cfg = ('SPECIFICATION Spec\nINVARIANTS OrderIndependent EachListedOnce PrefixMonotone OwnMinListed\nCHECK_DEADLOCK FALSE\nCONSTANTS\n'
-               ' MaxRecs = %d\n Ctrs = %s\n Depths = {0, %d}\n Mins = {0, %s}\n Known1 = {%s}\n Known2 = {%s}\n' % (
-                   mr, ctrs, depth, ', '.join(map(str, ms)), ', '.join(map(str, go_known)), ', '.join(map(str, mod_known))))
-        r = ctx.tlc('ChartConfigGen', cfg_text=cfg, dump=True, label='ChartConfigGen-%d' % mr, timeout=2400)
+    for (mr, ctrs, ms, npg) in gen_cfgs:
+        cfg = ('SPECIFICATION Spec\nINVARIANTS OrderIndependent EachListedOnce PrefixMonotone OwnMinListed Isolated\nCHECK_DEADLOCK FALSE\nCONSTANTS\n'
+               ' MaxRecs = %d\n Ctrs = %s\n Depths = {0, %d}\n Mins = {0, %s}\n NProgs = %d\n ToolProgs = {%s}\n Known1 = {%s}\n Known2 = {%s}\n' % (
+                   mr, ctrs, depth, ', '.join(map(str, ms)), npg, ', '.join(str(i + 1) for i in range(npg) if PROGS[i][2]),
+                   ', '.join(map(str, go_known)), ', '.join(map(str, mod_known))))
+        r = ctx.tlc('ChartConfigGen', cfg_text=cfg, dump=True, label='ChartConfigGen-%d-%dprogs' % (mr, npg), timeout=2400)
         if not r.ok:
             raise Infra('ChartConfigGen: a sanity theorem fails: %s %s\n%s' % (r.error, r.error_name, r.out[-3000:]))
         for st in tlaval.read_dump(r.dump):
@@ -478,7 +516,10 @@ def run(ctx):
                 continue
             # nctr / nstk are indexed by position in Ctrs
             for k in ('nctr', 'nstk'):
-                st[k] = [list(v) + [0] * (2 - len(v)) for v in st[k]]
+                st[k] = [list(v) + [0] * (2 - len(v)) for v in st[k]] + [[0, 0]] * (NP - len(st[k]))
+            st['present'] = list(st['present']) + [False] * (NP - len(st['present']))
+            st['req'] = list(st['req']) + [[]] * (NP - len(st['req']))
+            st['minv'] = list(st['minv']) + [-1] * (NP - len(st['minv']))
             cr = random.Random(ctx.seed * 31 + len(cases))
             cases.append(gen_case(len(cases), recs, cr, go_known, mod_known, ctr_names))
             exps.append((recs, st))
@@ -488,24 +529,30 @@ def run(ctx):
     rcases, rmeta = [], []
     for k in range(ctx.pick(300, 4000)):
         cr = random.Random(ctx.seed * 8191 + k)
-        gk = {i + 1: v for i, v in enumerate(U.GO_POOL) if cr.random() < 0.6}
-        mk = {i + 1: v for i, v in enumerate(U.SEMVER_POOL) if cr.random() < 0.6}
+        dens = cr.choice([0.0, 0.1, 0.6, 0.6, 0.6, 1.0])      # no / few / all versions known
+        gk = {i + 1: v for i, v in enumerate(U.GO_POOL) if cr.random() < dens}
+        mk = {pi + 1: {i + 1: v for i, v in enumerate(U.SEMVER_POOL) if cr.random() < cr.choice([0.0, 0.6, 0.6, 1.0])} for pi in range(NP) if not PROGS[pi][2]}
         names = {i + 1: n for i, n in enumerate(cr.sample(['gopls/editor:{emacs,vim}', 'gopls/bug', 'go/invocations', 'crash/crash', 'go/goexperiment:{a,b}'], 3))}
-        recs = [(cr.choice([1, 1, 2]), cr.randint(1, 3), cr.choice([0, 0, 1, 8, 16]), cr.choice([0] + list(range(1, top + 1)))) for _ in range(cr.randint(1, 6))]
+        recs = [(cr.choice([1, 1, 2, 2, 3, 4]), cr.randint(1, 3), cr.choice([0, 0, 1, 8, 16]), cr.choice([0] + list(range(1, top + 1)))) for _ in range(cr.randint(1, 6))]
         rcases.append(gen_case(len(cases) + k, recs, cr, gk, mk, names))
-        rmeta.append((recs, (set(gk), set(mk)), names))
+        rmeta.append((recs, [set(gk) if PROGS[pi][2] else set(mk[pi + 1]) for pi in range(NP)], names))
     pads = []
     universe = ['v%d.%d.%d%s' % (a, b, c, p) for a in range(0, 3) for b in range(0, 3) for c in range(0, 3) for p in ('', '-pre.1', '-pre.2', '-pre.4', '-rc.1')]
     lists = [[], ['v0.1.0'], ['v0.14.0', 'v0.15.0-pre.1', 'v0.15.0'], ['v1.0.0-pre.1'], ['v0.0.0'], ['v0.2.0', 'v0.2.1-pre.1', 'v0.2.1-pre.2'],
-             ['v1.2.2', 'v1.2.3-pre.2'], ['v2.2.2', 'v0.0.1']]
+             ['v1.2.2', 'v1.2.3-pre.2'], ['v2.2.2', 'v0.0.1'],
+             # two-digit components: numeric, not lexical, order (v0.9.0 < v0.10.0; the padding of v0.0.9 is v0.0.10)
+             ['v0.9.0', 'v0.10.0'], ['v0.0.9'], ['v1.9.9', 'v1.10.0-pre.1'], ['v9.9.9', 'v10.0.0-pre.2', 'v0.10.0']]
+    real_pads = [(6, 1, 3, 6, 4), (8, 1, 4, 5, 0), (4, 1, 1, 4, 0), (2, 1, 1, 2, 2), (2, 1, 1, 2, 0), (2, 1, 2, 0, 0)]      # configgen's own tables
     for _ in range(ctx.pick(6, 40)):
         lists.append(rng.sample(universe, rng.randint(1, 12)))
     pvals = [0, 1, 2] if not ctx.thorough() else [0, 1, 2, 3]
     allp = list(itertools.product(pvals, [0, 1, 2], [0, 1, 2], pvals, pvals))
     for li, vs in enumerate(lists):
-        plist = allp if (li < 3 or ctx.thorough()) else rng.sample(allp, 40)
+        plist = (allp if (li < 3 or ctx.thorough()) else rng.sample(allp, 40)) + real_pads
         for pd in plist:
             pats = ['pre.1', 'pre.2', 'pre.3', 'pre.4', 'pre.5', 'pre.6', 'pre.7', 'pre.8'] if (li + sum(pd)) % 4 else ['rc.1', 'rc.2']
+            if (li * 7 + sum(pd)) % 11 == 0:
+                pats = []          # no prerelease patterns at all
             vv = list(vs)
             rng.shuffle(vv)
             pads.append({'id': len(pads), 'versions': vv, 'patterns': pats, 'padding': list(pd)})
@@ -533,9 +580,9 @@ def run(ctx):
         if gen_crash(case, x):
             continue
         ctx.cov['evaluations'] += 1
-        o, extra = abstract_gen(case, x, recs, (set(go_known), set(mod_known)), ctr_names)
+        o, extra = abstract_gen(case, x, recs, [set(go_known) if PROGS[i][2] else set(mod_known) for i in range(NP)], ctr_names)
         ok = not extra
-        for p in (1, 2):
+        for p in range(1, NP + 1):
             op = o['out'][p - 1]
             ok = ok and op['present'] == st['present'][p - 1]
             ok = ok and set(st['req'][p - 1]) <= set(op['versions'])
@@ -575,10 +622,11 @@ def run(ctx):
         obs_meta.append({'case': case, 'obs': x})
         # the version list of the module program is a padded list: all real versions >= min, sorted, no duplicates
         for p in x.get('programs') or []:
-            if p['name'] == P_MOD:
-                mins_ = [r[3] for r in recs if r[0] == 2]
+            pn = [i + 1 for i, pr in enumerate(PROGS) if pr[0] == p['name'] and not pr[2]]
+            if pn:
+                mins_ = [r[3] for r in recs if r[0] == pn[0]]
                 mm = 0 if 0 in mins_ else min(mins_)
-                src = [U.SEMVER_POOL[v - 1] for v in sorted(kr[1]) if mm == 0 or v >= mm]
+                src = [U.SEMVER_POOL[v - 1] for v in sorted(kr[pn[0] - 1]) if mm == 0 or v >= mm]
                 add_pad_obs(ctx, obs, obs_meta, src, p['versions'], {'case': case, 'via': 'generate'})
     for pc in pads:
         x = pobs.get(pc['id'])
@@ -621,7 +669,7 @@ def run(ctx):
                 ctx.violation(classify_gen(o), {'case': case, 'abstract': o, 'observed': x},
                               'generate(%s) with known Go versions %s / module versions %s lists %s' % (
                                   [(r['Program'], r['Counter'], r['Depth'], r['Version']) for r in case['records']],
-                                  sorted(case['versions']['golang.org/toolchain']), sorted(case['versions'][M_MOD]),
+                                  sorted(case['versions']['golang.org/toolchain']), {k: sorted(v) for k, v in case['versions'].items() if k != 'golang.org/toolchain'},
                                   [(p['name'], p['versions'], [c['name'] for c in p['counters']], [(c['name'], c['depth']) for c in p['stacks']]) for p in x.get('programs', [])]))
             else:
                 missing = [s for s in meta['src'] if s not in meta['dst']]
